@@ -248,10 +248,24 @@ func enumerate(seed uint64) []enumEntry {
 	return out
 }
 
-// payloadCount: number of payload cases (every leaf path x every payload, in both tiers)
-func payloadCount(seed uint64, tier string) int {
-	// the full product is small (a few thousand cases, most rejected by the validator before rendering)
-	return len(enumerate(seed)) * len(payloads)
+// quickPayloads: the payloads of the quick tier (a fixed subset, so that what the quick tier hits on an
+// unchanged tree is a subset of what the thorough tier hits); the thorough tier uses all of them.
+var quickPayloads = map[string]bool{"": true, " 30m": true, "\"": true, "\\": true, "'": true, "{": true, ";": true, " x": true, "$": true,
+	"\n": true, ", ": true, "\\ ": true, prepend + "\\ ": true}
+
+// payloadKs: the enumeration indexes (leaf + len(leaves) * payload) of a tier
+func payloadKs(seed uint64, tier string) []int {
+	n := len(enumerate(seed))
+	var ks []int
+	for pi, p := range payloads {
+		if tier != "thorough" && !quickPayloads[p] {
+			continue
+		}
+		for l := 0; l < n; l++ {
+			ks = append(ks, pi*n+l)
+		}
+	}
+	return ks
 }
 
 func runPayload(seed uint64, id int, k int) (c Case) {
@@ -281,6 +295,7 @@ func runPayload(seed uint64, id int, k int) (c Case) {
 	c.Payload.Accepted = true
 	c.Deps = nil
 	c.Obs = runWorld(w)
+	c.Obs.Old, c.Obs.Snaps = nil, nil // the payload class judges the end state only
 	// the resource summary of the mutated object keeps the original strings; the truth is Payload
 	_ = strings.TrimSpace
 	return c
